@@ -15,10 +15,15 @@
 // (extended and not), both equal to a harness reference imprint, and the
 // imprint unchanged by signing.
 //
+// The families about SIZES of what travels in the uploaded tar stream (metasize,
+// bigstream, tarpath; gen/cfbgen/family.go) additionally get a third opinion on
+// the imprint from the Python reference of C05 (ref/py/c05ref.py), on the
+// unsigned input and on every output of the pipeline.
+//
 // Development knobs (never needed by ./check): C18_KNOWN_EXTRA=key1,key2 treats
 // those violation keys as known for this run only (printed as DEV-KNOWN, listed
 // in the evidence under dev_known_extra_hits); C18_ONLY=<substring of a file id>
-// restricts the family; C18_DEPTH=<n> overrides the history depth;
+// restricts the family; C18_DEPTH=<n> overrides the history depth; C18_CPUPROFILE=<path> writes a CPU profile;
 // `./check C18 --replay <replays/C18/x.json>` re-executes exactly one recorded
 // case (C18_DUMP=<path> also writes the input file there).
 package main
@@ -30,12 +35,14 @@ import (
 	"encoding/hex"
 	"encoding/json"
 	"fmt"
+	"hash"
 	"io"
 	"net/url"
 	"os"
 	"path/filepath"
 	"regexp"
 	"runtime"
+	"runtime/pprof"
 	"sort"
 	"strings"
 	"sync"
@@ -104,6 +111,7 @@ type fileCase struct {
 	skipRef  bool
 	class    string // input class that names a finding more narrowly ("" = none)
 	unusable bool   // relic cannot even open it: reported once, no histories
+	py       bool   // also ask the Python reference (depth 0 and pipeline outputs)
 }
 
 type op struct {
@@ -349,6 +357,12 @@ func isRootSig(path string) bool { return path == cfbgen.NameSig || path == cfbg
 // checkState applies the whole oracle to one file state.
 // wantSig/wantEx nil = contents not constrained (pipeline: only presence).
 func checkState(fc *fileCase, data []byte, p *cfbgen.Parsed, expectSig, expectEx int, wantSig, wantEx []byte) []issue {
+	out, _ := checkStateRV(fc, data, p, expectSig, expectEx, wantSig, wantEx)
+	return out
+}
+
+// checkStateRV also returns what relic's reader computed (err set: unusable).
+func checkStateRV(fc *fileCase, data []byte, p *cfbgen.Parsed, expectSig, expectEx int, wantSig, wantEx []byte) ([]issue, relicView) {
 	var out []issue
 	add := func(k, f string, a ...any) { out = append(out, issue{k, fmt.Sprintf(f, a...)}) }
 	// 1. structural validity (problems the input already had are not relic's)
@@ -422,7 +436,7 @@ func checkState(fc *fileCase, data []byte, p *cfbgen.Parsed, expectSig, expectEx
 		} else {
 			add("relic-reader-fails:"+errClass(rv.err), "%v", rv.err)
 		}
-		return out
+		return out, rv
 	}
 	structurallySound := len(out) == 0 || onlyTreeIssues(out)
 	if structurallySound {
@@ -456,7 +470,7 @@ func checkState(fc *fileCase, data []byte, p *cfbgen.Parsed, expectSig, expectEx
 			}
 		}
 	}
-	return out
+	return out, rv
 }
 
 func onlyTreeIssues(is []issue) bool {
@@ -519,6 +533,17 @@ func (w *worker) explore(fc *fileCase) {
 		m0.sigSize = int(e.Size)
 	}
 	m0.hasEx = fc.base.ByPath[cfbgen.NameSigEx] != nil
+	if fc.py && replayOps == nil {
+		// the unmodified input before the Python reference
+		if err := os.WriteFile(path, fc.data, 0o644); err != nil {
+			harnessError("%v", err)
+		}
+		if rv := readWithRelic(fc.data); rv.err == nil {
+			for _, is := range pyCompare(path, rv) {
+				report(finding{is.key, "file " + fc.id + " (unmodified input): " + is.desc, [3]int{fc.idx, 0, 0}, specReplay(fc, nil, nil)})
+			}
+		}
+	}
 	var rec func(data []byte, m model, hist []op, noMini bool)
 	rec = func(data []byte, m model, hist []op, noMini bool) {
 		atomic.AddInt64(&nStates, 1)
@@ -672,8 +697,11 @@ func (w *worker) pipeline(cfgKey string, fc *fileCase, inPlaceFirst bool, maxRep
 			if noext {
 				exLen = 0
 			}
-			issues := checkState(fc, after, p, 1, exLen, nil, nil)
+			issues, rv := checkStateRV(fc, after, p, 1, exLen, nil, nil)
 			atomic.AddInt64(&nDigestChecks, 2)
+			if fc.py && rv.err == nil {
+				issues = append(issues, pyCompare(dest, rv)...)
+			}
 			// relic's own verifier, integrity and chain
 			if _, verr := relicx.Verify(dest, relicx.TrustOpts()); verr != nil {
 				k := "relic-verify-rejects-own-output"
@@ -764,13 +792,10 @@ func selfCheck(fc *fileCase) {
 		harnessError("generator bug: validator rejects generated file %s: %+v", fc.id, fc.base.Problems)
 	}
 	want := map[string][]byte{}
-	for _, s := range fc.spec.Streams {
-		want[s.Name] = s.Content()
+	for path, s := range fc.spec.AllStreams() {
+		want[path] = s.Content()
 	}
 	if st := fc.spec.Storage; st != nil {
-		for _, s := range st.Streams {
-			want[st.Name+"/"+s.Name] = s.Content()
-		}
 		e := fc.base.ByPath[st.Name]
 		if e == nil || e.Type != cfbgen.TypeStorage || e.CLSID != st.CLSID || e.State != st.StateBits || e.CTime != st.CTime || e.MTime != st.MTime {
 			harnessError("generator bug: storage entry of %s not as specified", fc.id)
@@ -794,11 +819,33 @@ func selfCheck(fc *fileCase) {
 	if len(want) != 0 {
 		harnessError("generator bug: %d streams of %s missing", len(want), fc.id)
 	}
+	if m := fc.spec.Many; m != nil && m.MetaTarget > 0 {
+		// the metadata the harness reference pre-hashes has the length the family aimed at
+		cw := &countingHash{Hash: sha256.New()}
+		refPrehashDir(fc.base, fc.base.Entries[0], cw)
+		if cw.n != m.MetaTarget || fc.spec.ExMetaSize() != m.MetaTarget {
+			harnessError("generator bug: extended-signature metadata of %s is %d bytes (spec: %d), family aimed at %d", fc.id, cw.n, fc.spec.ExMetaSize(), m.MetaTarget)
+		}
+	}
 	r0 := fc.base.Entries[0]
 	if r0.CLSID != fc.spec.RootCLSID || r0.State != fc.spec.RootState || r0.MTime != fc.spec.RootMTime {
 		harnessError("generator bug: root entry of %s not as specified", fc.id)
 	}
 }
+
+// countingHash counts the bytes written to a hash.
+type countingHash struct {
+	hash.Hash
+	n int
+}
+
+func (c *countingHash) Write(b []byte) (int, error) {
+	c.n += len(b)
+	return c.Hash.Write(b)
+}
+
+// families about the sizes of the tar members
+var sizeFams = map[string]bool{"metasize": true, "bigstream": true, "tarpath": true}
 
 func main() {
 	run = vlib.NewRun("C18", "model_checking")
@@ -808,6 +855,12 @@ func main() {
 		if a == "--replay" && i+1 < len(os.Args) {
 			replay(os.Args[i+1])
 			return
+		}
+	}
+	if pf := os.Getenv("C18_CPUPROFILE"); pf != "" {
+		if f, err := os.Create(pf); err == nil {
+			pprof.StartCPUProfile(f)
+			defer pprof.StopCPUProfile()
 		}
 	}
 	thorough := run.Thorough()
@@ -850,6 +903,19 @@ func main() {
 	if thorough {
 		addFam(cfbgen.FamilyDifat())
 	}
+	// sizes of the members of the uploaded tar stream either side of buffer sizes
+	metaBounds := cfbgen.TarBoundaries[:3] // 4 KiB, 32 KiB, 64 KiB
+	metaDepth := 1
+	if thorough {
+		metaBounds = cfbgen.TarBoundaries // + 1 MiB (about 12 000 to 33 000 streams)
+		metaDepth = 2
+	}
+	if v := os.Getenv("C18_DEPTH"); v != "" {
+		metaDepth = depth
+	}
+	addFam(cfbgen.FamilyMetaSize(metaBounds))
+	addFam(cfbgen.FamilyBigStream(cfbgen.TarBoundaries[1:])) // 4 KiB is on the stream-size ladder
+	addFam(cfbgen.FamilyTarPath())
 	if only := os.Getenv("C18_ONLY"); only != "" {
 		var keep []cfbgen.Spec
 		for _, s := range specs {
@@ -861,7 +927,7 @@ func main() {
 	}
 	files := make([]*fileCase, len(specs))
 	for i := range specs {
-		files[i] = &fileCase{idx: i, id: specs[i].ID(), spec: &specs[i], maxDepth: depth}
+		files[i] = &fileCase{idx: i, id: specs[i].ID(), spec: &specs[i], maxDepth: depth, py: sizeFams[specs[i].Family]}
 	}
 	nw := runtime.NumCPU()
 	vlib.Parallel(len(files), nw, func(i int) {
@@ -873,6 +939,12 @@ func main() {
 		}
 		if len(fc.data) > 12<<20 && fc.maxDepth > 2 {
 			fc.maxDepth = 2
+		}
+		if fc.spec.Family == "metasize" {
+			fc.maxDepth = metaDepth
+			if fc.spec.Many.MetaTarget > 512<<10 && os.Getenv("C18_DEPTH") == "" {
+				fc.maxDepth = 1 // tens of thousands of streams: every state costs seconds
+			}
 		}
 		rv := readWithRelic(fc.data)
 		if rv.err != nil {
@@ -936,6 +1008,7 @@ func main() {
 		fc      *fileCase
 		key     string
 		inPlace bool
+		repeat  int
 	}
 	var pjobs []pjob
 	pipeFams := map[string]bool{"layout": true, "storage": true, "names": true, "nested-signame": true}
@@ -946,10 +1019,15 @@ func main() {
 		}
 		if pipeFams[fc.spec.Family] || (fc.spec.Family == "fatfull" && fc.spec.Version == 3) || (thorough && fc.spec.Family == "dircount") {
 			nPipeFiles++
-			pjobs = append(pjobs, pjob{fc, "rsaA", false})
+			pjobs = append(pjobs, pjob{fc, "rsaA", false, maxRepeat})
 			if fc.spec.Family == "layout" {
-				pjobs = append(pjobs, pjob{fc, "p256A", true})
+				pjobs = append(pjobs, pjob{fc, "p256A", true, maxRepeat})
 			}
+		}
+		if sizeFams[fc.spec.Family] {
+			// one signing with each flag value, then relic's verifier and both references
+			nPipeFiles++
+			pjobs = append(pjobs, pjob{fc, "rsaA", false, 1})
 		}
 	}
 	dummy := &fileCase{idx: len(files), id: "functest/packages/dummy.msi", path: filepath.Join(relicx.Packages, "dummy.msi"), skipRef: false}
@@ -959,7 +1037,7 @@ func main() {
 			dummy.baseDig = rv.dig
 		}
 		for _, k := range pipeKeys {
-			pjobs = append(pjobs, pjob{dummy, k, false}, pjob{dummy, k, true})
+			pjobs = append(pjobs, pjob{dummy, k, false, maxRepeat}, pjob{dummy, k, true, maxRepeat})
 		}
 		// the fixture also gets the direct-drive histories
 		dummy.maxDepth = depth
@@ -971,8 +1049,9 @@ func main() {
 		w := <-wch
 		defer func() { wch <- w }()
 		j := pjobs[i]
-		w.pipeline(j.key, j.fc, j.inPlace, maxRepeat)
+		w.pipeline(j.key, j.fc, j.inPlace, j.repeat)
 	})
+	pyStop()
 
 	// ---- evidence --------------------------------------------------------------
 	run.AddStates(int(atomic.LoadInt64(&nStates)))
@@ -983,6 +1062,16 @@ func main() {
 	for i := 0; i < len(files) && i < 400; i += 57 {
 		fc := files[i]
 		run.Sample(map[string]any{"file": fc.id, "bytes": len(fc.data), "layout": fc.info, "root_tree": fc.base.TreeShapes[""]})
+	}
+	metaCounts := map[string]int{}
+	for _, fc := range files {
+		if fc.spec.Family == "metasize" {
+			where := "root"
+			if fc.spec.Many.InStorage {
+				where = "storage"
+			}
+			metaCounts[fmt.Sprintf("exmeta=%d,names=%du,in=%s", fc.spec.Many.MetaTarget, fc.spec.Many.NameLen, where)] = fc.spec.Many.Count
+		}
 	}
 	run.Set("families", famCounts)
 	run.Set("generated_files", len(files))
@@ -1002,13 +1091,26 @@ func main() {
 		"pipeline_repeat":               maxRepeat,
 		"pipeline_flag_values":          []string{"no-extended-sig=false", "no-extended-sig=true"},
 		"pipeline_keys":                 pipeKeys,
+		"tar_member_sizes": map[string]any{
+			"boundaries":                    cfbgen.TarBoundaries,
+			"metasize_boundaries_this_tier": metaBounds,
+			"metasize":                      "extended-signature metadata member of exactly B-2, B, B+2 bytes (always even) x names of 4 / 30-31 code units x run of streams in the root / in a nested storage x version 3/4",
+			"metasize_stream_counts":        metaCounts,
+			"metasize_history_depth":        map[bool]map[string]int{false: {"up_to_64KiB": metaDepth}, true: {"up_to_64KiB": metaDepth, "1MiB": 1}}[thorough],
+			"bigstream":                     "one stream of B-1, B, B+1 bytes for B in 32 KiB, 64 KiB, 1 MiB (4 KiB is on the stream-size ladder) x version 3/4",
+			"tarpath":                       "tar member path (storage path + MSI-decoded name) of 99/100/101 bytes as root stream and as storage/stream; storage path of 154/155/156 bytes with a 100-byte name (255/256/257) x version 3/4",
+			"pipeline":                      "every file of these three families: one signing with each no-extended-sig value (key rsaA), relic verify, harness reference and Python reference",
+			"python_reference_calls":        atomic.LoadInt64(&pyCalls),
+		},
 	})
 	run.Rule("files: union of the sub-families listed under 'families' (each a full product of its own stated dimensions, see gen/cfbgen/family.go), NOT the product of all dimensions; " +
 		"state = (file, history of operations) reached by running the real InsertMSISignature+Close on a copy of the parent state's bytes (the state IS the file: relic keeps nothing else between operations); " +
 		"every history up to the depth bound is explored with no pruning; transition = one operation (or one relicx.SignStandalone in the pipeline sub-family). " +
+		"the families metasize / bigstream / tarpath put every member of the tar stream the file is uploaded as - the buffered metadata member of the extended signature, a stream, a member's path - on either side of the sizes an implementation would buffer with; on them the imprint is computed four ways (DigestMsiTar over MsiToTar, DigestMSI, the harness reference over the validator's parse, and - on the unsigned input and on every pipeline output - the Python reference ref/py/c05ref.py), extended and not. " +
 		"distinct_nontrivial = distinct resulting containers (sha256 of the bytes) per file, plus distinct (key, file, flag sequence) pipeline runs")
 	run.Assume("upper-casing for the directory order uses Go's simple case mapping (unicode.ToUpper) per UTF-16 code unit; the family's names only contain ASCII, Latin-1 and caseless CJK-range code units, where every Unicode version agrees")
 	run.Assume("the harness reference imprint skips the two signature streams in the root storage only; the nested-signame sub-family is therefore checked for tar==direct equality and invariance only")
+	run.Assume("the length of the extended-signature metadata follows the MsiDigitalSignatureEx convention (root: CLSID + state bits = 20 bytes; storage: name + CLSID + state bits + two timestamps; stream: name + 32-bit size + state bits + two timestamps = 24 bytes + name); the generator's arithmetic is checked on every metasize file against the number of bytes the harness reference actually pre-hashes")
 	run.Assume("a version-4 file needing a DIFAT sector (>= 446 MiB) is outside the bound; DIFAT growth is exercised with 512-byte sectors (thorough tier)")
 	run.Assume("problems the validator already reports on an input that the harness did not generate (functest dummy.msi) are not attributed to relic; only new problem classes after signing are")
 
@@ -1041,6 +1143,7 @@ func main() {
 		run.Set("dev_known_extra_hits", devHits)
 	}
 	os.RemoveAll(scratch)
+	pprof.StopCPUProfile()
 	run.Finish()
 }
 
